@@ -80,7 +80,7 @@ func main() {
 			years, _ = strconv.Atoi(os.Args[4])
 		}
 		p := gen.Random(rand.New(rand.NewSource(seed)), "g"+os.Args[2], gen.Opts{Years: years, Schedules: true, Measure: true, HeavyRain: true, Drain: true})
-		if err := p.Write(os.Args[3], "/repo/examples/parameter"); err != nil {
+		if err := p.Write(os.Args[3], core.RepoRoot+"/examples/parameter"); err != nil {
 			fmt.Println(err)
 			os.Exit(2)
 		}
